@@ -20,13 +20,91 @@ def all_classes():
     return [dict(fmt=f, col=c, ml=ml, ga=ga) for f in FMT for c in COL for ml in (False, True) for ga in (False, True)]
 
 
-def cfg(reset, hist, extra=""):
-    return ("SPECIFICATION Spec\nCONSTANTS ResetBySet = {%s}\n MaxHist = %d\nINVARIANT HistoryIndependent\nVIEW View\n"
-            "CHECK_DEADLOCK FALSE\n%s" % (", ".join('"%s"' % f for f in reset), hist, extra))
+def cfg(reset, hist, extra="", caller_file="function"):
+    return ("SPECIFICATION Spec\nCONSTANTS ResetBySet = {%s}\n MaxHist = %d\n CallerFile = \"%s\"\n"
+            "INVARIANT HistoryIndependent\nINVARIANT FunctionOfCall\nVIEW View\n"
+            "CHECK_DEADLOCK FALSE\n%s" % (", ".join('"%s"' % f for f in reset), hist, caller_file, extra))
 
 
 # what set()/setentry() of the current tree re-initialise among the modelled fields
 TREE_RESET = ["clr", "bg"]
+
+
+def environments(ctx):
+    """The process environments the experiments run in (the worker reports which one it finds itself in).
+    flat: the check's own HOME, working directory = the scratch directory - the probes' source file
+    (<scratch>/harness-src/fam_pool.go) lies under the working directory only.
+    nested: HOME = the scratch directory, working directory = <scratch>/harness-src: the default protected
+    directories of the library ($HOME -> "~", start directory -> ".") are nested above the source file - a
+    program run from a directory below $HOME."""
+    scratch = os.path.realpath(ctx.scratch)
+    return {"flat": dict(),
+            "nested": dict(cwd=os.path.join(scratch, "harness-src"), env={"HOME": scratch, "PWD": os.path.join(scratch, "harness-src")}),
+            # the other process-global rewrite table: a hosting provider registered below a built-in one, flag
+            # Lcallerpackagename on, probes with a call site inside the library (the worker does this when asked to)
+            "providers": dict(env={"VERIF_C09_PROVIDERS": "1"})}
+
+
+def experiment(ctx, behaviours, tag, envkw):
+    """Reference bytes of every probe from processes that never formatted anything else, then the histories;
+    all processes in the environment envkw.  Returns (rows, trace path, baselines path, probes)."""
+    sp = os.path.join(ctx.scratch, "hist-%s.json" % tag)
+    with open(sp, "w") as fh:
+        json.dump(dict(behaviours=behaviours), fh)
+    tp = os.path.join(ctx.scratch, "hist-%s.ndjson" % tag)
+    # one process per output format (a package-level cache filled by another kind of record cannot hide there)
+    probes = sorted(set(b["probe"] for b in behaviours))
+    merged = {}
+    for f in range(3):
+        mine = [p for p in probes if p // 1000 == f]
+        if not mine:
+            continue
+        pp, bp = os.path.join(ctx.scratch, "probes%d-%s.json" % (f, tag)), os.path.join(ctx.scratch, "base%d-%s.json" % (f, tag))
+        with open(pp, "w") as fh:
+            json.dump(mine, fh)
+        ctx.run_worker(["pool-baseline", pp, bp], testing=True, timeout=600, **envkw)
+        with open(bp) as fh:
+            base = json.load(fh)
+        merged.update(base)
+        # the reference itself must not depend on the order in which the reference process formats the probes
+        # (a package-level cache keyed too coarsely would make it do so), nor on the process: a second
+        # process, reverse order
+        pp2, bp2 = os.path.join(ctx.scratch, "probes%dr-%s.json" % (f, tag)), os.path.join(ctx.scratch, "base%dr-%s.json" % (f, tag))
+        with open(pp2, "w") as fh:
+            json.dump(mine[::-1], fh)
+        ctx.run_worker(["pool-baseline", pp2, bp2], testing=True, timeout=600, **envkw)
+        with open(bp2) as fh:
+            base2 = json.load(fh)
+        for p in mine:
+            if base[str(p)] != base2[str(p)]:
+                ctx.finding(finding_key(p, tag),
+                            "environment %s: probe %d formatted in a process that formatted the other probes of its format in ascending order gives %r, in "
+                            "descending order %r" % (tag, p, bytes(base[str(p)])[:300], bytes(base2[str(p)])[:300]),
+                            dict(kind="history", env=tag, behaviour=dict(history=[q for q in mine if q < p][-40:], probe=p)))
+                ctx.evaluations += 1
+                break
+    bl = os.path.join(ctx.scratch, "baselines-%s.json" % tag)
+    with open(bl, "w") as fh:
+        json.dump(merged, fh)
+    ctx.run_worker(["pool-history", sp, tp, bl], testing=True, timeout=1200, **envkw)
+    rows = read_ndjson(tp)
+    if len(rows) != len(behaviours):
+        raise Undecided("worker produced %d of %d results" % (len(rows), len(behaviours)))
+    if any(r_.get("env") != tag for r_ in rows):
+        raise Undecided("the worker did not find itself in the %s environment (HOME / working directory / source directory): %s" % (
+            tag, sorted(set(str(r_.get("env")) for r_ in rows))))
+    return rows, tp, bl, probes
+
+
+ENV_TEXT = {"nested": "$HOME and the start directory nested above the call site",
+            "providers": "a code hosting provider registered below a built-in one, Lcallerpackagename on"}
+
+
+def finding_key(pid, env):
+    """Signature of a divergence: output format and severity class of the probe; in the nested environment
+    (default protected directories nested above the call site) under a name of its own."""
+    key = "probe:fmt%d:sev%d" % (pid // 1000, (pid // 100) % 10)
+    return key if env == "flat" else {"nested": "nested-dirs:", "providers": "overlapping-providers:"}[env] + key
 
 
 def core_vocabulary():
@@ -79,14 +157,19 @@ def run(ctx, replay):
     if replay:
         with open(replay) as fh:
             rp = json.load(fh)["replay"]
-        behaviours = [rp["behaviour"]]
+        # (a divergence seen in the nested environment may be one of several results of the SAME call: repeat it)
+        behaviours = [rp["behaviour"]] * (64 if rp.get("env", "flat") != "flat" else 1)
     else:
         # 1. the model with the tree's reset set satisfies the property for all histories
         ctx.model_check("PoolResidual", "R.cfg", files={"R.cfg": cfg(TREE_RESET, 3 if quick else 4)}, name="residual")
-        # 2. non-vacuity: without the colour reset TLC must find the dependence
+        # 2. non-vacuity: without the colour reset TLC must find the dependence; with a caller file name
+        #    hardened in map iteration order the same call has two results in the nested environment
         w = ctx.tlc("PoolResidual", "W.cfg", files={"W.cfg": cfg([], 3)}, name="residual-witness", allow_fail=True)
         if "HistoryIndependent" not in w.invariant_violated:
             raise Undecided("witness run did not violate HistoryIndependent: invariant is vacuous")
+        w = ctx.tlc("PoolResidual", "W2.cfg", files={"W2.cfg": cfg(TREE_RESET, 2, caller_file="maporder")}, name="caller-file-witness", allow_fail=True)
+        if "FunctionOfCall" not in w.invariant_violated or "HistoryIndependent" in w.invariant_violated:
+            raise Undecided("witness run did not violate FunctionOfCall (alone): invariant is vacuous")
         # 3. histories enumerated from the model: every sequence of classes up to length 2 that changes the
         #    residual state differently is covered by taking all class sequences (the class space is small)
         classes = all_classes()
@@ -128,59 +211,30 @@ def run(ctx, replay):
         for _ in range(300 if quick else 6000):
             n = rng.randint(1, 12)
             behaviours.append(dict(history=[rng.choice(space) for _ in range(n)], probe=rng.choice(probes)))
-    sp = os.path.join(ctx.scratch, "hist.json")
-    with open(sp, "w") as fh:
-        json.dump(dict(behaviours=behaviours), fh)
-    tp = os.path.join(ctx.scratch, "hist.ndjson")
-    # reference bytes of every probe from processes that never formatted anything else: one process
-    # per output format (a package-level cache filled by another kind of record cannot hide there)
-    probes = sorted(set(b["probe"] for b in behaviours))
-    merged = {}
-    for f in range(3):
-        mine = [p for p in probes if p // 1000 == f]
-        if not mine:
-            continue
-        pp, bp = os.path.join(ctx.scratch, "probes%d.json" % f), os.path.join(ctx.scratch, "base%d.json" % f)
-        with open(pp, "w") as fh:
-            json.dump(mine, fh)
-        ctx.run_worker(["pool-baseline", pp, bp], testing=True, timeout=600)
-        with open(bp) as fh:
-            base = json.load(fh)
-        merged.update(base)
-        # the reference itself must not depend on the order in which the reference process formats the probes
-        # (a package-level cache keyed too coarsely would make it do so): a second process, reverse order
-        pp2, bp2 = os.path.join(ctx.scratch, "probes%dr.json" % f), os.path.join(ctx.scratch, "base%dr.json" % f)
-        with open(pp2, "w") as fh:
-            json.dump(mine[::-1], fh)
-        ctx.run_worker(["pool-baseline", pp2, bp2], testing=True, timeout=600)
-        with open(bp2) as fh:
-            base2 = json.load(fh)
-        for p in mine:
-            if base[str(p)] != base2[str(p)]:
-                ctx.finding("probe:fmt%d:sev%d" % (p // 1000, (p // 100) % 10),
-                            "probe %d formatted in a process that formatted the other probes of its format in ascending order gives %r, in "
-                            "descending order %r" % (p, bytes(base[str(p)])[:300], bytes(base2[str(p)])[:300]),
-                            dict(kind="history", behaviour=dict(history=[q for q in mine if q < p][-40:], probe=p)))
-                ctx.evaluations += 1
-                break
-    bl = os.path.join(ctx.scratch, "baselines.json")
-    with open(bl, "w") as fh:
-        json.dump(merged, fh)
+    envs = environments(ctx)
+    env0 = rp.get("env", "flat") if replay else "flat"
+    rows, tp, bl, probes = experiment(ctx, behaviours, env0, envs[env0])
     ctx.extra["baseline_processes"] = 6
-    ctx.run_worker(["pool-history", sp, tp, bl], testing=True, timeout=1200)
-    rows = read_ndjson(tp)
-    if len(rows) != len(behaviours):
-        raise Undecided("worker produced %d of %d results" % (len(rows), len(behaviours)))
     if not replay:
+        # the same experiment in the NESTED environment ($HOME and the start directory nested above the probes'
+        # source file): every probe class alone and directly after every class, plus a share of the random histories
+        nb = [b for b in behaviours[:len(ids) * (len(ids) + 1)]] + behaviours[-(60 if quick else 600):]
+        nrows, ntp, _, _ = experiment(ctx, nb, "nested", envs["nested"])
+        # ... and with overlapping code hosting providers (the caller's function name of coloured records)
+        pb = [b for b in nb if b["probe"] // 1000 == 2]
+        prows = experiment(ctx, pb, "providers", envs["providers"])[0]
+        nrows, nb = nrows + prows, [dict(b, env="nested") for b in nb] + [dict(b, env="providers") for b in pb]
+        ctx.extra["baseline_processes"] = 14
+        ctx.extra["nested_environment_behaviours"] = len(nb)
         # histories of ARBITRARY API calls (the whole LoggCore vocabulary on other loggers), then probes
         extra_rows, extra_beh = after_core(ctx, bl, probes, 120 if quick else 2500)
-        rows += extra_rows
-        behaviours += extra_beh
+        rows += extra_rows + nrows
+        behaviours += extra_beh + nb
         with open(tp, "a") as fh:
-            for r_ in extra_rows:
+            for r_ in extra_rows + nrows:
                 fh.write(json.dumps(r_) + "\n")
     r = ctx.tlc("PoolResidualTrace", "T.cfg", files={"T.cfg": cfg(TREE_RESET, 1000).replace("SPECIFICATION Spec", "SPECIFICATION TSpec")
-                .replace("INVARIANT HistoryIndependent\nVIEW View\n", "INVARIANT Done\n") + "CONSTANT TraceFile = \"trace.ndjson\"\n"},
+                .replace("INVARIANT HistoryIndependent\nINVARIANT FunctionOfCall\nVIEW View\n", "INVARIANT Done\n") + "CONSTANT TraceFile = \"trace.ndjson\"\n"},
                 copy={tp: "trace.ndjson"}, workers=1, name="residual-trace", timeout=1800)
     res = r.prints("bad")
     if len(res) != 1:
@@ -193,10 +247,11 @@ def run(ctx, replay):
         row = rows[b["line"] - 1]
         beh = behaviours[b["line"] - 1]
         pid = beh["probe"]
-        key = "probe:fmt%d:sev%d" % (pid // 1000, (pid // 100) % 10)
-        ctx.finding(key, "probe %d after history %s differs from the same probe on a fresh pool: got %r want %r" % (
+        env = row.get("env", "flat")
+        ctx.finding(finding_key(pid, env), "%sprobe %d after history %s differs from the same probe on a fresh pool: got %r want %r" % (
+            "" if env == "flat" else "environment %s (%s): " % (env, ENV_TEXT[env]),
             pid, beh.get("core_behaviour", beh["history"]), row.get("got", "")[:300], row.get("want", "")[:300]),
-            dict(kind="history", behaviour=dict(history=beh["history"], probe=beh["probe"]), core_behaviour=beh.get("core_behaviour")))
+            dict(kind="history", env=env, behaviour=dict(history=beh["history"], probe=beh["probe"]), core_behaviour=beh.get("core_behaviour")))
     ctx.traces += len(rows)
     ctx.evaluations += sum(len(b["history"]) + 2 for b in behaviours)
     ctx.nontrivial += len(set((tuple(b["history"]), b["probe"]) for b in behaviours if b["history"]))
@@ -205,8 +260,10 @@ def run(ctx, replay):
     ctx.sample(behaviours[-1])
     ctx.assumptions += ["GC is switched off and the worker is single-threaded during a behaviour so that sync.Pool hands back the object "
                         "just returned (checked through the pc.get/pc.put hooks); the fresh-pool baseline is obtained after two GCs",
-                        "probes are issued through WriteThru with a fixed timestamp"]
+                        "probes are issued through WriteThru with a fixed timestamp",
+                        "process environments: the nested one is made of HOME and the working directory of the worker process alone; in the providers one the worker registers github.com/hedzr -> HZ, sets Lcallerpackagename and hands WriteThru a program counter inside slog.Safety (the worker's own functions are in package main, which no provider matches); the worker reports the environment it finds itself in"]
     return ctx.finish(rule="all (history of <=1 (quick) / <=2 (thorough) record classes, probe class) pairs of the model's class space "
                            "(3 formats x 3 colour-registration classes x multi-line x group) + seeded random histories of up to 12 "
                            "records over 360 record kinds (incl. reserved-name attributes, 100 KiB records, stack-carrying errors, values that panic); each probe's bytes compared with the same probe on a fresh pool; "
+                           "the class pairs and a share of the random histories again in the process environments 'nested' ($HOME and the start directory nested above the call site) and, coloured probes, 'providers' (overlapping code hosting providers), reference bytes from processes of the same environment; "
                            "non-trivial = distinct (history, probe) with non-empty history", exhaustive=not bool(replay))
